@@ -141,8 +141,8 @@ def run_p2ploop(work, tier, seed, verdict):
     transport, validated against P2PLoop.tla."""
     r = vlib.tlc_must_pass(work, "MC_P2PLoop", "MC_P2PLoop.cfg", workers=vlib.NCPU, timeout=1200)
     print("TLC MC_P2PLoop.cfg: %d distinct states, %d transitions, %.0fs" % (r["distinct"], r["generated"], r["wall_s"]))
-    n, hb = (20, 0) if tier == "quick" else (160, 4)
-    scs = fl.gen_scenarios(seed, n, own_hb=hb)
+    n, hb, n_tlc = (16, 0, 8) if tier == "quick" else (160, 4, 80)
+    scs = fl.gen_scenarios(seed, n, own_hb=hb) + fl.tlc_scenarios(work, n_tlc, 12, seed)
     lines, wall, info = fl.replay(work, scs)
     if lines is None:
         verdict.add("loop/crash/" + re.sub(r"[^A-Za-z0-9]+", "-", info["crash"])[:80], {"why": "the process running p2p.Run crashed", "stack": info["stack"]})
